@@ -190,6 +190,9 @@ def account(mod, prop, tier, seed, jobs, results, metas, ev_path, t0, workroot, 
                         break
                 if hit:
                     known_hits.append((hit, job, o))
+                    if not job.bounded:
+                        n_obl -= 1  # reported as KNOWN-FINDING, listed separately in the evidence, not part of the proof count
+                        by_class[o["class"]] = by_class.get(o["class"], 1) - 1
                 else:
                     violations.append((job, r, o))
     # group violations: one VIOLATION line per (kernel-level) obligation description, first job that shows it
@@ -260,7 +263,8 @@ def account(mod, prop, tier, seed, jobs, results, metas, ev_path, t0, workroot, 
             "undecided_clauses": list(getattr(mod, "UNDECIDED_CLAUSES", [])),
             "static_facts": list(getattr(mod, "STATIC_FACTS", [])),
             "undecided_jobs": undecided[:20],
-            "known_findings_reported": [h[0]["what"] for h in known_hits][:10],
+            "known_findings_reported": sorted({h[0]["what"] for h in known_hits})[:10],
+            "known_finding_obligations": [{"job": h[1].name, "obligation": h[2]["name"]} for h in known_hits][:40],
             "fixed_findings": fixed,
             "violation_records": [{"obligation": v["obligation"], "job": v["job"], "native": v["native_replay"].get("status")} for v in vio_records],
         }
